@@ -3,7 +3,7 @@
 import json
 CLAIMED = {
  "C01": ("theorems C01_oracle_holds_on_model (decode of the model's own encoder output in every history: type, payload range and content; unsuccessful completion codes come back as that error; known findings 101/102), C01_roundtrip_non_control / _request / _response / _completion_code on spec_packet (decode_packet (spec_packet ...) in closed form, using encoders-refine-spec from C16); correspondence: every encoder, all six completion codes, bodies up to the SMBus limit, a second receiving context", "§6 C01"),
- "C02": ("theorems C02_decode_ok_implies_pec, C02_process_ok_implies_pec, C02_bad_pec_inert (bad PEC: context and buffer unchanged and no Ok, also under panic), C02_burst_never_accepted / C02_burst_process_inert (any non-zero corruption confined to 8 consecutive bits of an accepted packet is rejected: GF(2)-linearity of the CRC proved by finite sweeps lifted by induction over the byte string), C02_oracle_holds_on_model; correspondence: each decoder arm separately, trailing bytes, byte-count corruption, burst windows, histories with a twin context that never sees the bad packets", "§6 C02"),
+ "C02": ("theorems C02_decode_ok_implies_pec, C02_process_ok_implies_pec, C02_bad_pec_inert (bad PEC: context and buffer unchanged and no Ok, also under panic), C02_burst_never_accepted / C02_burst_process_inert (any non-zero corruption confined to 8 consecutive bits of an accepted packet is rejected: GF(2)-linearity of the CRC proved by finite sweeps lifted by induction over the byte string), C02_one_bit / two_bits / odd-weight theorems with the exact limit (order of x = 127), C02_bad_pec_changes_no_later_output (removing every bad-PEC process call from a history changes no other observation), C02_oracle_holds_on_model; correspondence: each decoder arm separately, trailing bytes, byte-count corruption, burst windows, histories with a twin context that never sees the bad packets", "§6 C02"),
  "C10": ("theorems C10_decode_panics_iff, C10_process_panics_iff (exact characterisation, both directions, of the inputs on which decoder / processor panic for a valid configuration and a >= 64-byte buffer, in either overflow mode), C10_get_length_no_panic, C10_oracle_holds_on_model; the panic classes are the recorded known findings 1001-1009, 1012-1015; correspondence under catch_unwind in overflow-checked and wrapping builds", "§6 C10"),
  "C11": ("theorems C11_process_agrees_with_decode, C11_buffer_untouched_unless_request, C11_process_by_cases (process_packet by cases on decode_packet), C11_oracle_holds_on_model; correspondence: decode then process of the same bytes incl. trailing / truncated variants, poisoned response buffers", "§6 C11"),
  "C12": ("theorems C12_oracle_holds_on_model (every response to an accepted answerable request is a spec_packet travelling back to the requester: framing, byte count, transport header, PEC, Rq/D/rsvd clear, same command code, completion code; instance ID as recorded known finding 1201), C12_answerable_requests_are_answered and C12_process_is_dispatch (process_packet = dispatch on the decoded request), C12_own_answers_go_through_the_own_decoder, C12_conversation_* (library encoder on the requester -> process_packet on the responder -> decode_packet on the requester, one theorem per command, the answer addressed back to the requester); correspondence over requester x instance x command grids, whole conversations through the library's own encoders and decoder, and after random histories", "§6 C12"),
